@@ -262,7 +262,7 @@ Definition search_ops (cd : code) (c : cfg) (tag : nat) (s : fs)
   | LBFGS =>
       (* maxiter = 0: the while loop is never entered and `return search_internal` raises UnboundLocalError *)
       let fresh := match c_updates c with
-                   | O => ([], inl UnboundLocal, true, true)
+                   | O => ([], inl UnboundLocal, false, true)   (* the initial point is evaluated in a worker process *)
                    | S _ => (repeat_ops (c_updates c) loop, inr tag, true, true)
                    end in
       match fd s Dill with
